@@ -342,6 +342,8 @@ def _drive(cell):
     p0_bond = None if p0 is None else int(p0.max_bond())
     eig = cfg.get("eig", "default")
     seq = cfg["seq"]
+    # sequence actually promised: explicit argument, else opts['default_sweep_sequence'], else the documented default "R"
+    seq_dflt = seq or (cfg.get("opts") or {}).get("default_sweep_sequence") or "R"
 
     zero_beyond = bool(sgn * Eext > 0)  # 0 is below E0 ('SA') / above Emax ('LA')
     tol = 1e-8 * scale
@@ -365,7 +367,7 @@ def _drive(cell):
 
     def crash(stage, ex):
         root = None
-        if stage == "solve" and L == bsz and "L" in (seq or "R") and not cyclic:
+        if stage == "solve" and L == bsz and "L" in seq_dflt and not cyclic:
             # structural: the chain offers a single block position and the
             # sequence contains a leftward sweep
             root = "left-sweep-single-position"
@@ -387,6 +389,11 @@ def _drive(cell):
         d.opts["local_eig_ham_dense"] = False
     elif eig != "default":
         raise KeyError(eig)
+    for ok_, ov_ in sorted((cfg.get("opts") or {}).items()):
+        # only options documented in get_default_opts (a typo must not pass silently)
+        if ok_ not in d.opts:
+            raise KeyError("not a documented DMRG option: %r" % (ok_,))
+        d.opts[ok_] = ov_
     if cyclic:
         d.opts["periodic_segment_size"] = 1.0  # documented choice for small systems
 
@@ -425,12 +432,12 @@ def _drive(cell):
             if cyclic:
                 return table.rejected("periodic:solve:bsz=%d:L=%d:%s" % (bsz, L, type(ex).__name__))
             # which sweep were we in?  recompute the structural flag first
-            _flag_uncanon_from_records(flags, mon, done_rec, n_upd_sweep, bsz, seq or "R", sched_b, pos_b, cur_bonds)
+            _flag_uncanon_from_records(flags, mon, done_rec, n_upd_sweep, bsz, seq_dflt, sched_b, pos_b, cur_bonds)
             return crash("solve", ex)
         stats["conv"].append(bool(conv))
         n_sw = len(d.energies) - n_sw_done
         n_sw_done = len(d.energies)
-        seq_eff = seq or "R"
+        seq_eff = seq_dflt
 
         new = mon.rec[done_rec:]
         done_rec = len(mon.rec)
@@ -819,6 +826,84 @@ def plan_tables(tier, opts):
             _cells(hamsC, cfg_product(**axC)),
             "%d Hamiltonians (site-dependent couplings incl. a cut bond; MatrixProductOperator.from_dense of spin models; generic dense Hermitian real/complex; spectrum shifted above/below zero%s) x bsz x which x bonds x cutoffs%r x seq%r x init{default,prodg} x plan{S6,S2+S3} x eig{default,dense pinned}"
             % (len(hamsC), "; L=6, S=1 L=5, S=3/2" if thorough else "", axC["cutoffs"], axC["seq"]),
+        )
+    )
+
+    # ---- D: documented DMRG.opts that change the numerics ----------------- #
+    # crossed with caps / cutoffs that make the local updates (also the LAST
+    # one of a solve) discard weight
+    hamsD = [
+        _spin(["XX", "ZZ", "fX"], 2, 3),  # S=1: caps 1, 2 are below the local dimension
+        _spin(["XX", "YY", "fZ"], 1, 4),
+        _spin(["ZZ", "DM", "fX"], 1, 4),
+    ]
+    if thorough:
+        hamsD += [_spin(["XX", "XZ", "fY"], 2, 4), _spin(["XX", "ZZ", "fZ"], 1, 5, shift="pI"), {"kind": "gen-cplx", "S2": 1, "L": 4}, _spin(["YY", "ZZ"], 3, 3)]
+    modes = [None, "sum2", "rsum2", "sum1", "rsum1", "rel", "abs"]
+    methods = [None, "svd", "svd:eig"] + (["eig"] if thorough else [])
+    optsD1 = []
+    for cm in modes:
+        for me in methods:
+            o = {}
+            if cm is not None:
+                o["bond_compress_cutoff_mode"] = cm
+            if me is not None:
+                o["bond_compress_method"] = me
+            optsD1.append(o)
+    axD1 = dict(
+        bsz=[2],
+        which=["SA", "LA"] if thorough else ["SA"],
+        bonds=[[1], [2], [2, 4], ["EXACT"]],
+        cutoffs=[[0.0], [1e-10], [1e-4], [5e-2]],
+        seq=["R", "RL"],
+        init=["default", "prodg"] if thorough else ["default"],
+        plan=["S6"],
+        eig=["default"],
+        opts=optsD1,
+    )
+    T.append(
+        (
+            "D1:compress opts x truncation",
+            _cells(hamsD, cfg_product(**axD1)),
+            "%d Hamiltonians x DMRG2 x which%r x opts['bond_compress_cutoff_mode']%r x opts['bond_compress_method']%r (None = library default) x bonds{[1],[2],[2,4],[exact]} x cutoffs{0,1e-10,1e-4,5e-2} x seq{R,RL} x init%r"
+            % (len(hamsD), axD1["which"], modes, methods, axD1["init"]),
+        )
+    )
+    optsD2 = []
+    for dense in (None, False, True):
+        for bk in (None, "NUMPY", "SCIPY"):
+            for tl in (None, 1e-10):
+                for ncv in (None, 8):
+                    o = {}
+                    if dense is not None:
+                        o["local_eig_ham_dense"] = dense
+                    if bk is not None:
+                        o["local_eig_backend"] = bk
+                    if tl is not None:
+                        o["local_eig_tol"] = tl
+                    if ncv is not None:
+                        o["local_eig_ncv"] = ncv
+                    if dense is False and bk == "NUMPY":
+                        continue  # a TNLinearOperator cannot be handed to the dense backend
+                    optsD2.append(o)
+    optsD2 += [{"default_sweep_sequence": "RL"}, {"default_sweep_sequence": "RRL"}, {"local_eig_maxiter": 1000}]
+    axD2 = dict(
+        bsz=[1, 2],
+        which=["SA", "LA"],
+        bonds=[[2], [2, 4], ["EXACT"]] if thorough else [[2], ["EXACT"]],
+        cutoffs=[[0.0], [1e-4]],
+        seq=[None, "RL"],
+        init=["default"],
+        plan=["S6"],
+        eig=["default"],
+        opts=optsD2,
+    )
+    T.append(
+        (
+            "D2:local eigensolver opts",
+            _cells(hamsD, cfg_product(**axD2)),
+            "%d Hamiltonians x bsz x which x %d settings of opts[local_eig_ham_dense x local_eig_backend x local_eig_tol x local_eig_ncv] + default_sweep_sequence{RL,RRL} + local_eig_maxiter x bonds%r x cutoffs{0,1e-4} x seq{library default,RL}"
+            % (len(hamsD), len(optsD2) - 3, axD2["bonds"]),
         )
     )
 
